@@ -156,6 +156,13 @@ func binaryAtoms() []rawAtom {
 	add("timestamp-day-32", 0x65, 0x80, 0x0F, 0xD0, 0x81, 0xA0)
 	add("timestamp-feb-30", 0x65, 0x80, 0x0F, 0xD0, 0x82, 0x9E)
 	add("timestamp-feb-29-nonleap", 0x65, 0x80, 0x0F, 0xD1, 0x82, 0x9D)
+	// years divisible by 100 but not by 400 have no February 29th (2100, 1900, 100, 1000; with and without a time)
+	add("timestamp-feb-29-century", 0x65, 0xC0, 0x10, 0xB4, 0x82, 0x9D)
+	add("timestamp-feb-29-century", 0x65, 0xC0, 0x0E, 0xEC, 0x82, 0x9D)
+	add("timestamp-feb-29-century", 0x64, 0xC0, 0xE4, 0x82, 0x9D)
+	add("timestamp-feb-29-century", 0x65, 0xC0, 0x07, 0xE8, 0x82, 0x9D)
+	add("timestamp-feb-29-century", 0x67, 0x80, 0x10, 0xB4, 0x82, 0x9D, 0x8C, 0x9E)
+	add("timestamp-feb-29-century", 0x68, 0x80, 0x0E, 0xEC, 0x82, 0x9D, 0x8C, 0x9E, 0x81)
 	add("timestamp-hour-24", 0x67, 0x80, 0x0F, 0xD0, 0x81, 0x81, 0x98, 0x80)
 	add("timestamp-minute-60", 0x67, 0x80, 0x0F, 0xD0, 0x81, 0x81, 0x80, 0xBC)
 	add("timestamp-second-60", 0x68, 0x80, 0x0F, 0xD0, 0x81, 0x81, 0x80, 0x80, 0xBC)
@@ -263,6 +270,9 @@ func textAtoms() []rawAtom {
 	add("bad-base64", "{{ab!c}}")
 	add("bad-base64", "{{abc}}")
 	add("bad-base64", "{{a b c d =}}")
+	for _, s := range []string{"2100-02-29", "2100-02-29T", "1900-02-29T12:30Z", "0100-02-29T", "1000-02-29T00:00:00.000-08:00", "2200-02-29T23:59:59.999999999Z", "2300-02-29"} {
+		add("timestamp-feb-29-century", s)
+	}
 	add("clob-non-ascii", "{{\"é\"}}")
 	for _, s := range []string{"{{\"\\u0041\"}}", "{{\"a\\U00000041\"}}", "{{'''x\\u000Ay'''}}", "{{'''first''' '''sec\\U000000FFond'''}}", "{{\"\\u00e9\"}}", "{{\"\\u0100\"}}", "{{'''\\U0001F600'''}}"} {
 		add("clob-unicode-escape", s)
@@ -435,6 +445,12 @@ func runC07(c *Ctx) {
 				badCheck(c, false, "unterminated-block-comment", []byte(src+" /*/ x * /"), true)
 				badCheck(c, false, "unterminated-long-string", []byte(src+" '''never closed"), true)
 				badCheck(c, false, "unterminated-string", []byte(src+" \"never closed"), true)
+				// a line comment ends at LF, CR LF or a lone CR: what follows it is read (and checked) again
+				for _, nl := range []string{"\r", "\n", "\r\n"} {
+					for _, bad := range []string{"\"abc", "[2, 3", "{a:", "/* two", "a::", "\"a\\qb\"", "1__0", "2021-02-30T", "[2,,3]", "(2 3))", "{{ x }}"} {
+						badCheck(c, false, "malformed-after-line-comment", []byte(src+" 1 // one"+nl+bad), true)
+					}
+				}
 				badCheck(c, false, "dangling-annotation-at-eof", []byte(src+" ann::"), true)
 				badCheck(c, false, "dangling-annotation-at-eof", []byte(src+" 'ann' :: /*c*/ "), true)
 			} else {
